@@ -5,12 +5,14 @@ package main
 
 import (
 	"bytes"
+	"encoding/hex"
 	"encoding/json"
 	"fmt"
 	"os"
 	"os/exec"
 	"path/filepath"
 	"sort"
+	"strconv"
 	"strings"
 
 	openfgav1 "github.com/openfga/api/proto/openfga/v1"
@@ -53,6 +55,10 @@ type wlPure struct {
 
 // sharedBuilder is set for the duration of a run when the workload asks for it.
 var sharedBuilder *graph.WeightedAuthorizationModelGraphBuilder
+
+// raceMode: this process is the -race worker (set from the command line, or
+// when a race violation is replayed).
+var raceMode bool
 
 type firstOpRequest struct {
 	Input pInput `json:"input"`
@@ -131,6 +137,8 @@ type rInput struct {
 	// (read-only API on a shared object)
 	sharedG *graph.AuthorizationModelGraph
 	labels  []string
+	// one weighted graph built before the tasks start; the tasks only read it
+	sharedWG *graph.WeightedAuthorizationModelGraph
 }
 
 func realise(in *pInput) *rInput {
@@ -146,6 +154,9 @@ func realise(in *pInput) *rInput {
 			os.Exit(2)
 		}
 		r.json = string(b)
+		if wg, err := graph.NewWeightedAuthorizationModelGraphBuilder().Build(proto.Clone(r.pm).(*openfgav1.AuthorizationModel)); err == nil {
+			r.sharedWG = wg
+		}
 		if g, err := graph.NewAuthorizationModelGraph(proto.Clone(r.pm).(*openfgav1.AuthorizationModel)); err == nil {
 			r.sharedG = g
 			for _, t := range in.Model.Types {
@@ -189,12 +200,12 @@ func detBytes(m proto.Message) string {
 	if err != nil {
 		return "marshal error: " + err.Error()
 	}
-	return fmt.Sprintf("%x", b)
+	return hex.EncodeToString(b)
 }
 
 var opsByKind = map[string][]string{
-	"model":   {"dsl2proto", "dsl2json", "moddsl2proto", "json2dsl", "proto2dsl", "plaingraph", "wgraph", "assignable", "graphquery", "loadjson", "mustdsl", "lineutils"},
-	"jmodel":  {"json2dsl", "proto2dsl", "plaingraph", "wgraph", "assignable", "json2dsl", "proto2dsl", "graphquery", "loadjson"},
+	"model":   {"dsl2proto", "dsl2json", "moddsl2proto", "json2dsl", "proto2dsl", "plaingraph", "wgraph", "assignable", "graphquery", "wgraphquery", "wgraphquery", "loadjson", "mustdsl", "lineutils"},
+	"jmodel":  {"json2dsl", "proto2dsl", "plaingraph", "wgraph", "assignable", "json2dsl", "proto2dsl", "graphquery", "wgraphquery", "wgraphquery", "loadjson"},
 	"text":    {"dsl2proto", "dsl2json", "moddsl2proto", "json2dsl", "modfile", "loadjson", "mustdsl", "lineutils"},
 	"modset":  {"merge"},
 	"modfile": {"modfile"},
@@ -238,7 +249,7 @@ func execOp(op pOp, r *rInput) (res string) {
 			ks = append(ks, k+"="+detBytes(td))
 		}
 		sort.Strings(ks)
-		return "model: " + detBytes(m) + " ext: " + strings.Join(ks, ",") + fmt.Sprintf(" extnil=%v", ext == nil)
+		return "model: " + detBytes(m) + " ext: " + strings.Join(ks, ",") + " extnil=" + strconv.FormatBool(ext == nil)
 	case "json2dsl":
 		s, err := transformer.TransformJSONStringToDSL(r.json, opts...)
 		if err != nil {
@@ -260,7 +271,11 @@ func execOp(op pOp, r *rInput) (res string) {
 		if err != nil {
 			return "error: reversed: " + err.Error()
 		}
-		return "dot: " + g.GetDOT() + " rev: " + rev.GetDOT() + " cycles: " + fmt.Sprint(g.GetCycles())
+		cyc := "skipped"
+		if g.Nodes().Len() <= 24 {
+			cyc = cycleFlags(g.GetCycles())
+		}
+		return "dot: " + g.GetDOT() + " rev: " + rev.GetDOT() + " cycles: " + cyc
 	case "wgraph":
 		builder := sharedBuilder
 		if builder == nil {
@@ -287,17 +302,40 @@ func execOp(op pOp, r *rInput) (res string) {
 		sb.WriteString(rev.GetDOT())
 		for _, a := range r.labels {
 			if n, err := g.GetNodeByLabel(a); err == nil {
-				fmt.Fprintf(&sb, "%s=%d ", a, n.NodeType())
+				sb.WriteString(a + "=" + strconv.Itoa(int(n.NodeType())) + " ")
 			}
 			for _, b := range r.labels {
 				p, _ := g.PathExists(a, b)
 				q, _ := rev.PathExists(b, a)
-				fmt.Fprintf(&sb, "%v%v", p, q)
+				sb.WriteString(strconv.FormatBool(p) + strconv.FormatBool(q))
 			}
 		}
-		sb.WriteString(cycleFlags(g.GetCycles()))
+		// cycle enumeration is exponential in the number of cycles (not a
+		// subject of C13): only on small graphs
+		if g.Nodes().Len() <= 24 {
+			sb.WriteString(cycleFlags(g.GetCycles()))
+		}
 		sb.WriteString(g.GetDOT())
 		return sb.String()
+	case "wgraphquery":
+		// every read accessor of a finished weighted graph, on a shared object
+		if r.sharedWG == nil {
+			return "no weighted graph"
+		}
+		snap := snapshot(r.sharedWG).text
+		var sb strings.Builder
+		for _, l := range r.labels {
+			if n, ok := r.sharedWG.GetNodeByID(l); ok {
+				es, _ := r.sharedWG.GetEdgesFromNode(n)
+				w, _ := n.GetWeight("user")
+				sb.WriteString(l + ":" + strconv.Itoa(len(es)) + ":" + strconv.Itoa(w) + ":" + strings.Join(n.GetWildcards(), ",") + " ")
+				for _, e := range es {
+					ew, _ := e.GetWeight("user")
+					sb.WriteString(strconv.Itoa(ew) + strings.Join(e.GetWildcards(), ",") + strings.Join(e.GetConditions(), ",") + " ")
+				}
+			}
+		}
+		return snap + sb.String()
 	case "loadjson":
 		m, err := transformer.LoadJSONStringToProto(r.json)
 		if err != nil {
@@ -315,7 +353,10 @@ func execOp(op pOp, r *rInput) (res string) {
 		for _, n := range []string{"doc", "a", "viewer", "view", "c1", "group", "parent"} {
 			i1, i2, i3, i4 := utils.GetTypeLineNumber(n, lines), utils.GetRelationLineNumber(n, lines), utils.GetConditionLineNumber(n, lines), utils.GetExtendedTypeLineNumber(n, lines)
 			l, c := utils.ConstructLineAndColumnData(lines, i2, n)
-			fmt.Fprintf(&sb, "%s:%d,%d,%d,%d,%v,%v ", n, i1, i2, i3, i4, l, c)
+			for _, x := range []int{i1, i2, i3, i4, l.Start, l.End, c.Start, c.End} {
+				sb.WriteString(strconv.Itoa(x) + ",")
+			}
+			sb.WriteString(n + " ")
 		}
 		return sb.String()
 	case "assignable":
@@ -328,7 +369,11 @@ func execOp(op pOp, r *rInput) (res string) {
 			sort.Strings(rn)
 			for _, n := range rn {
 				mod, err := utils.GetModuleForObjectTypeRelation(td, n)
-				out = append(out, fmt.Sprintf("%s#%s=%v/%s/%v", td.GetType(), n, utils.IsRelationAssignable(td.GetRelations()[n]), mod, err))
+				es := ""
+				if err != nil {
+					es = err.Error()
+				}
+				out = append(out, td.GetType()+"#"+n+"="+strconv.FormatBool(utils.IsRelationAssignable(td.GetRelations()[n]))+"/"+mod+"/"+es)
 			}
 		}
 		return strings.Join(out, " ")
@@ -346,12 +391,22 @@ func execOp(op pOp, r *rInput) (res string) {
 		if err != nil {
 			return "error: " + err.Error()
 		}
-		b, _ := json.Marshal(mf)
-		return "modfile: " + string(b)
+		// (no encoding/json here: its encoder pool would synchronise the tasks)
+		var sb strings.Builder
+		sb.WriteString("modfile: schema=" + strconv.Quote(mf.Schema.Value) + "@" + strconv.Itoa(mf.Schema.Line) + ":" + strconv.Itoa(mf.Schema.Column))
+		sb.WriteString(" contents@" + strconv.Itoa(mf.Contents.Line) + ":" + strconv.Itoa(mf.Contents.Column))
+		for _, c := range mf.Contents.Value {
+			sb.WriteString(" " + strconv.Quote(c.Value) + "@" + strconv.Itoa(c.Line) + ":" + strconv.Itoa(c.Column))
+		}
+		return sb.String()
 	case "validate":
 		s := r.dsl
-		return fmt.Sprint(validation.ValidateObject(s), validation.ValidateObjectID(s), validation.ValidateRelation(s), validation.ValidateUserSet(s),
-			validation.ValidateUserObject(s), validation.ValidateUserWildcard(s), validation.ValidateUser(s), validation.ValidateRelationshipCondition(s), validation.ValidateType(s))
+		var sb strings.Builder
+		for _, b := range []bool{validation.ValidateObject(s), validation.ValidateObjectID(s), validation.ValidateRelation(s), validation.ValidateUserSet(s),
+			validation.ValidateUserObject(s), validation.ValidateUserWildcard(s), validation.ValidateUser(s), validation.ValidateRelationshipCondition(s), validation.ValidateType(s)} {
+			sb.WriteString(strconv.FormatBool(b) + " ")
+		}
+		return sb.String()
 	}
 	return "unknown op " + op.Kind
 }
@@ -423,7 +478,14 @@ func (c *pureCtx) check(cfg simrt.Config) ([]mismatch, simrt.Stats, string) {
 				simrt.Note("op."+op.Kind, "invoke", int64(op.In))
 				res := execOp(op, rin[op.In])
 				simrt.Note("op."+op.Kind, "return", int64(op.In))
-				results[t] = append(results[t], opResult{task: t, op: op, res: res, input: rin[op.In].untouched()})
+				in := ""
+				if !raceMode {
+					// (proto.Equal and the diff use fmt and protobuf internals that
+					// synchronise through pools; under the race detector the inputs
+					// are compared after the tasks only)
+					in = rin[op.In].untouched()
+				}
+				results[t] = append(results[t], opResult{task: t, op: op, res: res, input: in})
 			}
 		}
 	}
@@ -454,9 +516,6 @@ func (c *pureCtx) check(cfg simrt.Config) ([]mismatch, simrt.Stats, string) {
 	if st.Deadlock {
 		add("liveness.deadlock", "every unfinished task is parked on a lock: deadlock")
 	}
-	if st.Overrun {
-		add("liveness.overrun", "the step bound was exceeded: livelock or runaway loop under this interleaving")
-	}
 	// pristine references, computed after the faulted phase: cold restart,
 	// single caller, canonical schedule, fresh inputs
 	parser.VerifColdRestart()
@@ -474,6 +533,35 @@ func (c *pureCtx) check(cfg simrt.Config) ([]mismatch, simrt.Stats, string) {
 		v := execOp(op, refIn[op.In])
 		refs[k] = v
 		return v
+	}
+	// bounded liveness, relative to the sequential cost of the same calls: the
+	// concurrent phase may not need more than 50x the yield points the calls
+	// pass when executed one after the other by a single caller (+ 10 000 per
+	// call). The absolute cap of the run (MaxSteps) only protects the batch:
+	// when it is hit the same relative rule decides.
+	{
+		seqOf := map[string]int64{}
+		var seq int64
+		n := 0
+		for _, ops := range wl.Tasks {
+			for _, op := range ops {
+				if !valid(op) {
+					continue
+				}
+				k := fmt.Sprintf("%s/%d/%v", op.Kind, op.In, op.Opt)
+				if _, ok := seqOf[k]; !ok {
+					simrt.Begin(simrt.Config{})
+					_ = refOf(op)
+					seqOf[k] = simrt.End().SeqSteps
+				}
+				seq += seqOf[k]
+				n++
+			}
+		}
+		bound := 50*seq + 10000*int64(n)
+		if st.Steps > bound || (st.Overrun && int64(cfg.MaxSteps) > bound) {
+			add("liveness.overrun", "the concurrent phase needed %d scheduling steps (aborted=%v); the same %d calls pass %d yield points sequentially (bound %d): livelock or runaway loop under this interleaving", st.Steps, st.Overrun, n, seq, bound)
+		}
 	}
 	nops := 0
 	for t := range results {
@@ -698,7 +786,43 @@ func genBroadWorkload(r *rng) *wlPure {
 	return wl
 }
 
+// genReaderStorm: 2-3 tasks that only read objects built before they start
+// (a finished plain graph and a finished weighted graph per model, and the
+// shared model itself). No call enters the parser, so nothing orders the
+// tasks: a read accessor that writes (lazy initialisation, sorting or caching
+// inside a getter) is reported by the race detector.
+func genReaderStorm(r *rng) *wlPure {
+	wl := &wlPure{}
+	for i := 0; i < 2; i++ {
+		m := genDSLModel(r)
+		kind := "model"
+		if r.chance(40) {
+			unhoist(r, m)
+			kind = "jmodel"
+		}
+		if r.chance(40) {
+			attributeModel(r, m)
+		}
+		wl.Inputs = append(wl.Inputs, pInput{Kind: kind, Model: m})
+	}
+	readers := []string{"wgraphquery", "graphquery", "assignable", "proto2dsl"}
+	nt := 2 + r.intn(2)
+	for t := 0; t < nt; t++ {
+		var ops []pOp
+		for _, i := range r.perm(len(wl.Inputs)) {
+			for _, j := range r.perm(len(readers))[:2+r.intn(2)] {
+				ops = append(ops, pOp{Kind: readers[j], In: i, Opt: r.chance(50)})
+			}
+		}
+		wl.Tasks = append(wl.Tasks, ops)
+	}
+	return wl
+}
+
 func genPureWorkload(r *rng) *wlPure {
+	if r.chance(12) {
+		return genReaderStorm(r)
+	}
 	wl := &wlPure{}
 	nIn := 2 + r.intn(4)
 	var baseDSL []string
@@ -718,6 +842,13 @@ func genPureWorkload(r *rng) *wlPure {
 			unhoist(r, m)
 			if r.chance(35) {
 				attributeModel(r, m)
+			}
+			if len(m.Conds) > 0 && r.chance(30) {
+				// JSON-only: a condition whose nested name is missing, or differs
+				// from the key it is stored under
+				c := m.Conds[r.intn(len(m.Conds))]
+				c.Key = c.Name
+				c.Name = []string{"", "", c.Name + "x"}[r.intn(3)]
 			}
 			wl.Inputs = append(wl.Inputs, pInput{Kind: "jmodel", Model: m})
 		case x < 70:
@@ -1067,7 +1198,7 @@ func genNarrowWorkload(r *rng, kinds []string) *wlPure {
 	return wl
 }
 
-var allOpKinds = []string{"validate", "modfile", "dsl2proto", "dsl2json", "moddsl2proto", "json2dsl", "proto2dsl", "plaingraph", "wgraph", "assignable", "merge", "graphquery", "loadjson", "mustdsl", "lineutils"}
+var allOpKinds = []string{"validate", "modfile", "dsl2proto", "dsl2json", "moddsl2proto", "json2dsl", "proto2dsl", "plaingraph", "wgraph", "assignable", "merge", "graphquery", "wgraphquery", "loadjson", "mustdsl", "lineutils"}
 
 func coldProcessRaceProbe(b *BatchResult, prop string, seed, run uint64, r *rng) {
 	var wl *wlPure
